@@ -19,6 +19,7 @@ is the independent executable *specification* (`"s"`): closed forms over the sor
 rules, written without the fold.  Props/C05.lean proves Part 1 = Part 2.
 -/
 import RioModel.Generated.Consts
+import RioModel.Model.Header
 
 namespace Rio.Action
 
@@ -411,6 +412,23 @@ def Action.filterHeaders (a : Action) (c : Nat) (addRuleIdsHeader : Bool) : Filt
   { filters := r.1
     ruleIdsHeader := if addRuleIdsHeader then some r.2 else none
     action := { a with rulesApplied := r.2 } }
+
+/-- The part of an `api::HeaderFilter` the header actions read (C13 model). -/
+def toHeaderOp (f : HeaderFilter) : Rio.Header.HeaderFilter := ⟨f.action, f.header, f.value⟩
+
+/-- The whole of `Action::filter_headers(headers, response_status_code, add_rule_ids_header, None)`:
+selection (above), `FilterHeaderAction::new(filters)` + `filter(headers)` (the C13 model, `lower` =
+`str::to_lowercase`), then the `X-RedirectionIo-RuleIds` header (`showId` renders an id; the driver
+decodes the UTF-8 bytes). -/
+def Action.filterHeadersFull (lower : String → String) (showId : RuleId → String) (a : Action)
+    (headers : List Rio.Header.Header) (c : Nat) (addRuleIdsHeader : Bool) :
+    List Rio.Header.Header × Action :=
+  let r := a.filterHeaders c addRuleIdsHeader
+  let newHeaders := Rio.Header.filterHeaders lower (r.filters.map toHeaderOp) headers
+  ((match r.ruleIdsHeader with
+    | none => newHeaders
+    | some ids => newHeaders ++ [⟨"X-RedirectionIo-RuleIds", String.intercalate ";" (ids.map showId)⟩]),
+   r.action)
 
 /-- `Action::create_filter_body` up to `FilterBodyAction::new(filters, headers)`: the selected filters. -/
 def Action.createFilterBody (a : Action) (c : Nat) : List BodyFilter × Action :=
